@@ -20,6 +20,18 @@ use miniz_oxide_c_api as c;
 
 const PAGE: usize = 4096;
 
+/// Exported C symbols that the crate does not re-export as Rust items (they live in a private module and are
+/// reachable only by their unmangled names, exactly as a C caller reaches them).
+mod csym {
+    use super::c;
+    extern "C" {
+        pub fn tinfl_decompressor_alloc() -> *mut c::tinfl_decompressor;
+        pub fn tinfl_decompressor_free(c: *mut c::tinfl_decompressor);
+        pub fn tinfl_init(c: *mut c::tinfl_decompressor);
+        pub fn tinfl_get_adler32(c: *mut c::tinfl_decompressor) -> libc::c_int;
+    }
+}
+
 /// A buffer whose declared range ends exactly at (End) or starts exactly after (Start) an
 /// inaccessible page; the rest of the mapping is painted with a canary.
 pub struct Guard {
@@ -630,7 +642,16 @@ fn fam_tdefl(s: &Script, st: &mut Stats) -> Result<RunInfo, Violation> {
             let mut in_size = inb.len();
             let mut out_size = if use_cb { 0 } else { ol };
             let out_ptr = if use_cb { std::ptr::null_mut() } else { gout.ptr as *mut c_void };
-            let rc = c::tdefl_compress(cp.as_mut(), gin.ptr as *const c_void, Some(&mut in_size), out_ptr, Some(&mut out_size), std::mem::transmute(fl as i32)) as i32;
+            // with a callback sink the C API also offers tdefl_compress_buffer (no size pointers: the whole input is
+            // taken or the call fails)
+            let via_buffer_fn = use_cb && s.c("buffer_fn") != 0;
+            let rc = if via_buffer_fn {
+                let r = c::tdefl_compress_buffer(cp.as_mut(), gin.ptr as *const c_void, in_size, std::mem::transmute(fl as i32)) as i32;
+                st.inc("probe.tdefl_compress_buffer_calls");
+                r
+            } else {
+                c::tdefl_compress(cp.as_mut(), gin.ptr as *const c_void, Some(&mut in_size), out_ptr, Some(&mut out_size), std::mem::transmute(fl as i32)) as i32
+            };
             st.inc("calls");
             st.inc("steps");
             canaries(&gin, &gout, "tdefl_compress", k)?;
@@ -659,6 +680,11 @@ fn fam_tdefl(s: &Script, st: &mut Stats) -> Result<RunInfo, Violation> {
             h.u(rc as u64);
             h.u(in_size as u64);
             h.u(out_size as u64);
+            if via_buffer_fn {
+                // the function reports no counts; the Rust call tells what was taken
+                in_size = ei;
+                out_size = eo;
+            }
             if rc != es || in_size != ei || out_size != eo {
                 c::tdefl_deallocate(cp);
                 return viol("C17.same_as_rust", format!("tdefl_compress call {} (in {}, out {}, flush {}, callback {}): status {} in_size {} out_size {}; Rust gives {} / {} / {}", k, inb.len(), ol, fl, use_cb, rc, in_size, out_size, es, ei, eo));
@@ -691,6 +717,23 @@ fn fam_tdefl(s: &Script, st: &mut Stats) -> Result<RunInfo, Violation> {
             }
         }
         c::tdefl_deallocate(cp);
+        // flag construction from zlib-style parameters
+        {
+            let mut x = flags as u64 ^ (n as u64).wrapping_mul(0x9E37_79B9_7F4A_7C15);
+            for _ in 0..4 {
+                x ^= x << 13;
+                x ^= x >> 7;
+                x ^= x << 17;
+                let level = (x % 14) as c_int - 2;
+                let wbits = [15, -15, 8, -8, 0, 9, 12, 14, -12, 16][(x >> 8) as usize % 10] as c_int;
+                let strat = ((x >> 16) % 7) as c_int - 1;
+                let cf = c::tdefl_create_comp_flags_from_zip_params(level, wbits, strat);
+                let rf = create_comp_flags_from_zip_params(level, wbits, strat);
+                if cf != rf {
+                    return viol("C17.same_as_rust", format!("tdefl_create_comp_flags_from_zip_params({}, {}, {}) = {:#x}, Rust gives {:#x}", level, wbits, strat, cf, rf));
+                }
+            }
+        }
         // one-shot helpers on the same input
         if s.c("heap") != 0 {
             let gin = Guard::with(plain, true);
@@ -744,7 +787,35 @@ fn fam_tinfl(s: &Script, st: &mut Stats) -> Result<RunInfo, Violation> {
     let base_flags: u32 = (if zlib { 1 } else { 0 }) | (if ring { 0 } else { 4 });
     let mut h = Hasher::new();
     unsafe {
-        let mut cr = c::tinfl_decompressor::default();
+        // the decompressor object: a stack value, or one obtained from tinfl_decompressor_alloc(); optionally it
+        // has decoded something else before and was re-initialised with tinfl_init()
+        let heap_obj = s.c("heap_obj") != 0;
+        let mut local = c::tinfl_decompressor::default();
+        struct Owned(*mut c::tinfl_decompressor);
+        impl Drop for Owned {
+            fn drop(&mut self) {
+                if !self.0.is_null() {
+                    unsafe { csym::tinfl_decompressor_free(self.0) }
+                }
+            }
+        }
+        let owned = Owned(if heap_obj { csym::tinfl_decompressor_alloc() } else { std::ptr::null_mut() });
+        if heap_obj && owned.0.is_null() {
+            return viol("C17.allocate", "tinfl_decompressor_alloc returned NULL".into());
+        }
+        let cr: *mut c::tinfl_decompressor = if heap_obj { owned.0 } else { &mut local };
+        if s.c("tinfl_reuse") != 0 {
+            // an unrelated earlier use of the same object
+            let junk = [0x78u8, 0x9c, 0xed, 0xbd, 0x07, 0x60, 0x1c, 0x49, 0x96, 0x25];
+            let mut jin = (s.c("tinfl_reuse") as usize).min(junk.len());
+            let mut jout = 64usize;
+            let mut jb = [0u8; 64];
+            let _ = c::tinfl_decompress(cr, junk.as_ptr(), &mut jin, jb.as_mut_ptr(), jb.as_mut_ptr(), &mut jout, 4 | 2 | 1);
+            csym::tinfl_init(cr);
+            st.inc("probe.tinfl_init_after_use");
+        } else if heap_obj || s.c("tinfl_init") != 0 {
+            csym::tinfl_init(cr);
+        }
         let mut rr = DecompressorOxide::new();
         // output buffer of the C side lives against a guard page; Rust side is a plain Vec
         let gout = Guard::new(cap, true);
@@ -781,7 +852,7 @@ fn fam_tinfl(s: &Script, st: &mut Stats) -> Result<RunInfo, Violation> {
             // using a second guarded copy when the window is smaller than the rest of the buffer
             let gwin = Guard::new(out_pos + win, true);
             std::ptr::copy_nonoverlapping(gout.ptr, gwin.ptr, out_pos + win);
-            let rc = c::tinfl_decompress(&mut cr, gin.ptr, &mut in_size, gwin.ptr, gwin.ptr.add(out_pos), &mut out_size, flags);
+            let rc = c::tinfl_decompress(cr, gin.ptr, &mut in_size, gwin.ptr, gwin.ptr.add(out_pos), &mut out_size, flags);
             st.inc("calls");
             st.inc("steps");
             if let Some(i) = gwin.canary_intact() {
@@ -803,6 +874,10 @@ fn fam_tinfl(s: &Script, st: &mut Stats) -> Result<RunInfo, Violation> {
             }
             if gout.bytes()[..out_pos + win] != rout[..out_pos + win] {
                 return viol("C17.same_bytes_as_rust", format!("tinfl_decompress call {}: buffer contents differ from decompress()", k));
+            }
+            let ca = csym::tinfl_get_adler32(cr) as u32;
+            if ca != rr.adler32().unwrap_or(0) {
+                return viol("C17.adler_field_same_as_rust", format!("tinfl_get_adler32 after call {}: {:#x}, DecompressorOxide::adler32() of the lock-step decoder: {:?}", k, ca, rr.adler32()));
             }
             pos += in_size;
             collected.extend_from_slice(&rout[out_pos..out_pos + out_size]);
@@ -1126,6 +1201,36 @@ fn fam_misuse(s: &Script, st: &mut Stats) -> Result<RunInfo, Violation> {
                         return viol("C17.misuse_returns_error_code", "tdefl_compress_mem_to_output(no callback) != 0".into());
                     }
                 }
+                11 => {
+                    // the bound functions take no buffer: a NULL stream is fine and the two bounds agree
+                    let n = (a.max(0) as c_ulong) * 977 + data.len() as c_ulong;
+                    let b1 = c::mz_deflateBound(std::ptr::null_mut(), n);
+                    let b2 = c::mz_compressBound(n);
+                    if b1 != b2 || b1 < n {
+                        return viol("C17.misuse_returns_error_code", format!("mz_deflateBound(NULL, {}) = {}, mz_compressBound = {}", n, b1, b2));
+                    }
+                }
+                12 => {
+                    // the default allocator callbacks (what a C caller may store in zalloc / zfree)
+                    let items = 1 + (a.max(0) as usize % 7);
+                    let size = 1 + data.len();
+                    let p1 = c::miniz_def_alloc_func(std::ptr::null_mut(), items, size) as *mut u8;
+                    if p1.is_null() {
+                        return viol("C17.allocate", format!("miniz_def_alloc_func({}, {}) returned NULL", items, size));
+                    }
+                    std::ptr::copy_nonoverlapping(data.as_ptr(), p1, data.len());
+                    let p2 = c::miniz_def_realloc_func(std::ptr::null_mut(), p1 as *mut c_void, items + 3, size * 2) as *mut u8;
+                    if p2.is_null() {
+                        c::miniz_def_free_func(std::ptr::null_mut(), p1 as *mut c_void);
+                        return viol("C17.allocate", "miniz_def_realloc_func returned NULL".into());
+                    }
+                    let kept = std::slice::from_raw_parts(p2, data.len()) == data;
+                    c::miniz_def_free_func(std::ptr::null_mut(), p2 as *mut c_void);
+                    c::miniz_def_free_func(std::ptr::null_mut(), std::ptr::null_mut());
+                    if !kept {
+                        return viol("C17.same_bytes_as_rust", "miniz_def_realloc_func lost the contents of the block".into());
+                    }
+                }
                 _ => {
                     // checksums with NULL
                     if c::mz_adler32(7, std::ptr::null(), 5) != 1 || c::mz_crc32(7, std::ptr::null(), 5) != 0 {
@@ -1224,6 +1329,9 @@ pub fn gen_c17(rng: &mut Rng, _i: u64, tier: Tier) -> Script {
             s.set("callback", rng.chance(1, 2) as i64);
             s.set("reinit", rng.chance(1, 4) as i64);
             s.set("heap", rng.chance(1, 2) as i64);
+            if s.c("callback") != 0 && rng.chance(1, 3) {
+                s.set("buffer_fn", 1);
+            }
             if s.c("callback") != 0 && rng.chance(1, 10) {
                 s.set("putfail", rng.range(1, 3) as i64);
             }
@@ -1252,6 +1360,11 @@ pub fn gen_c17(rng: &mut Rng, _i: u64, tier: Tier) -> Script {
             s.set("flat_cap", (vs.plain_len + rng.pick(&[0usize, 1, 300])) as i64);
             s.set("plain_len", vs.plain_len as i64);
             s.set("heap", rng.chance(1, 2) as i64);
+            s.set("heap_obj", rng.chance(1, 2) as i64);
+            s.set("tinfl_init", rng.chance(1, 3) as i64);
+            if rng.chance(1, 5) {
+                s.set("tinfl_reuse", rng.range(1, 10) as i64);
+            }
             let style = rng.next_u64();
             s.ops = gen::core_ops(rng, n + 4, style);
             s.set_blob("stream", vs.bytes);
@@ -1260,7 +1373,7 @@ pub fn gen_c17(rng: &mut Rng, _i: u64, tier: Tier) -> Script {
             let n = rng.range(0, 200);
             s.set_blob("plain", gen::plaintext(rng, n));
             for _ in 0..rng.range(1, 6) {
-                let kind = rng.below(11) as i64;
+                let kind = rng.below(13) as i64;
                 let a = match kind {
                     4 => rng.pick(&[-1i64, 5, 6, 7, 100, -100, 255]),
                     5 => rng.range(0, 20) as i64 - 5,
